@@ -85,16 +85,31 @@ def run_fd(c):
         before = fds()
         warns = []
         err = None
+        # every file the CSV front-end opens is tracked (a leaked file object would otherwise be closed by the garbage
+        # collector as soon as the exception's traceback is released, hiding the leak from /proc/self/fd)
+        tracked = []
+        import builtins
+
+        def tracking_open(*a, **kw):
+            f = builtins.open(*a, **kw)
+            tracked.append(f)
+            return f
+        C.open = tracking_open
         try:
             rbql.query_csv(c['q'].replace('JOINFILE', joinp), inp, ',', c.get('policy', 'quoted'), outp, ',', c.get('opolicy', 'quoted'), c.get('enc', 'utf-8'), warns, c.get('with_headers', False))
         except Exception as e:
             err = EN.canon_error(e)
+        finally_unset = C.__dict__.pop('open', None)
         after = fds()
+        not_closed = sum(1 for f in tracked if not f.closed)
+        for f in tracked:
+            if not f.closed:
+                f.close()
         out = None
         if os.path.exists(outp):
             with open(outp, 'rb') as f:
                 out = list(f.read())
-        return {'leak': len(after) - len(before), 'error': err, 'out_len': None if out is None else len(out)}
+        return {'leak': (len(after) - len(before)) + not_closed, 'opened': len(tracked), 'error': err, 'out_len': None if out is None else len(out)}
     finally:
         for fn in os.listdir(d):
             os.remove(os.path.join(d, fn))
